@@ -22,7 +22,8 @@ EXTENDS Integers, Sequences, FiniteSets, TLC, Json, SequencesExt
 CONSTANTS Calls,              \* function: call name -> kind ("pub1","pub2","sub","unsub","ping","disconnect")
           ConnectInFlight,    \* a Connect is waiting for CONNACK (holding muConnecting) while the calls are issued
           BugLockIgnoresCtx,
-          BugNoConnClosedArm  \* non-vacuity: a select without the connClosed arm
+          BugNoConnClosedArm, \* non-vacuity: a select without the connClosed arm
+          BugCloseNoopAfterDisc \* Close() does nothing once a Disconnect has marked the client Disconnected (seeded change c11g)
 
 C == DOMAIN Calls
 VARIABLES loc,        \* per call: "start" | "atRLock" | "waitAck" | "waitComp" | "returned"
@@ -31,56 +32,74 @@ VARIABLES loc,        \* per call: "start" | "atRLock" | "waitAck" | "waitComp" 
           connecting, \* Connect holds muConnecting
           connLoc,    \* Connect: "waitConnack" | "returned" | "none"
           connCtxDone,
-          topen, serving, done
-vars == <<loc, res, ctxDone, connecting, connLoc, connCtxDone, topen, serving, done>>
+          topen, serving, done,
+          marked,      \* some Disconnect has set the state to Disconnected (disconnect.go:24, BEFORE it writes DISCONNECT)
+          closeCalled  \* the application called Close()
+vars == <<loc, res, ctxDone, connecting, connLoc, connCtxDone, topen, serving, done, marked, closeCalled>>
 
 Init == /\ loc = [c \in C |-> "start"] /\ res = [c \in C |-> "none"] /\ ctxDone = [c \in C |-> FALSE]
         /\ connecting = ConnectInFlight /\ connLoc = IF ConnectInFlight THEN "waitConnack" ELSE "none"
-        /\ connCtxDone = FALSE /\ topen = TRUE /\ serving = TRUE /\ done = FALSE
+        /\ connCtxDone = FALSE /\ topen = TRUE /\ serving = TRUE /\ done = FALSE /\ marked = FALSE /\ closeCalled = FALSE
 
 \* ---- the calls ----
+\* Disconnect: state := Disconnected, then the DISCONNECT packet is written, then the transport is closed (disconnect.go:22-33)
 Enter(c) == /\ loc[c] = "start"
-            /\ loc' = [loc EXCEPT ![c] = IF connecting THEN "atRLock" ELSE IF Calls[c] = "disconnect" THEN "returned" ELSE "waitAck"]
-            /\ res' = [res EXCEPT ![c] = IF ~connecting /\ Calls[c] = "disconnect" THEN "ok" ELSE @]
-            /\ UNCHANGED <<ctxDone, connecting, connLoc, connCtxDone, topen, serving, done>>
+            /\ loc' = [loc EXCEPT ![c] = IF connecting THEN "atRLock" ELSE IF Calls[c] = "disconnect" THEN "discWrite" ELSE "waitAck"]
+            /\ marked' = (marked \/ (~connecting /\ Calls[c] = "disconnect"))
+            /\ UNCHANGED <<res, ctxDone, connecting, connLoc, connCtxDone, topen, serving, done, closeCalled>>
 \* the lock is released when Connect returns
 GotLock(c) == /\ loc[c] = "atRLock" /\ ~connecting
-              /\ IF Calls[c] = "disconnect" \/ ~topen
-                 THEN loc' = [loc EXCEPT ![c] = "returned"] /\ res' = [res EXCEPT ![c] = IF topen THEN "ok" ELSE "closed"]   \* the write fails on a closed transport
-                 ELSE loc' = [loc EXCEPT ![c] = "waitAck"] /\ UNCHANGED res
-              /\ UNCHANGED <<ctxDone, connecting, connLoc, connCtxDone, topen, serving, done>>
+              /\ IF ~topen
+                 THEN loc' = [loc EXCEPT ![c] = "returned"] /\ res' = [res EXCEPT ![c] = "closed"] /\ UNCHANGED marked   \* the write fails on a closed transport
+                 ELSE /\ loc' = [loc EXCEPT ![c] = IF Calls[c] = "disconnect" THEN "discWrite" ELSE "waitAck"]
+                      /\ marked' = (marked \/ Calls[c] = "disconnect") /\ UNCHANGED res
+              /\ UNCHANGED <<ctxDone, connecting, connLoc, connCtxDone, topen, serving, done, closeCalled>>
+\* the DISCONNECT write succeeds: Disconnect closes the transport and returns nil
+DiscWriteOk(c) == /\ loc[c] = "discWrite" /\ topen
+                  /\ topen' = FALSE /\ loc' = [loc EXCEPT ![c] = "returned"] /\ res' = [res EXCEPT ![c] = "ok"]
+                  /\ UNCHANGED <<ctxDone, connecting, connLoc, connCtxDone, serving, done, marked, closeCalled>>
+\* ... or fails (a transport that reports an error, or one that was closed meanwhile): Disconnect returns the error and
+\* leaves the transport as it is -- ending the connection is then up to the application's Close()
+DiscWriteFail(c) == /\ loc[c] = "discWrite"
+                    /\ loc' = [loc EXCEPT ![c] = "returned"] /\ res' = [res EXCEPT ![c] = "closed"]
+                    /\ UNCHANGED <<ctxDone, connecting, connLoc, connCtxDone, topen, serving, done, marked, closeCalled>>
 \* a context-aware lock acquisition would return here
 LockCtx(c) == /\ loc[c] = "atRLock" /\ ctxDone[c] /\ ~BugLockIgnoresCtx
               /\ loc' = [loc EXCEPT ![c] = "returned"] /\ res' = [res EXCEPT ![c] = "ctx"]
-              /\ UNCHANGED <<ctxDone, connecting, connLoc, connCtxDone, topen, serving, done>>
+              /\ UNCHANGED <<ctxDone, connecting, connLoc, connCtxDone, topen, serving, done, marked, closeCalled>>
 \* QoS 2: PUBREC arrives (the only acknowledgement the environment ever sends), PUBREL is written
 Rec(c) == /\ loc[c] = "waitAck" /\ Calls[c] = "pub2" /\ topen
           /\ loc' = [loc EXCEPT ![c] = "waitComp"]
-          /\ UNCHANGED <<res, ctxDone, connecting, connLoc, connCtxDone, topen, serving, done>>
+          /\ UNCHANGED <<res, ctxDone, connecting, connLoc, connCtxDone, topen, serving, done, marked, closeCalled>>
 WakeCtx(c) == /\ loc[c] \in {"waitAck", "waitComp"} /\ ctxDone[c]
               /\ loc' = [loc EXCEPT ![c] = "returned"] /\ res' = [res EXCEPT ![c] = "ctx"]
-              /\ UNCHANGED <<ctxDone, connecting, connLoc, connCtxDone, topen, serving, done>>
+              /\ UNCHANGED <<ctxDone, connecting, connLoc, connCtxDone, topen, serving, done, marked, closeCalled>>
 WakeClosed(c) == /\ loc[c] \in {"waitAck", "waitComp"} /\ done /\ ~BugNoConnClosedArm
                  /\ loc' = [loc EXCEPT ![c] = "returned"] /\ res' = [res EXCEPT ![c] = "closed"]
-                 /\ UNCHANGED <<ctxDone, connecting, connLoc, connCtxDone, topen, serving, done>>
+                 /\ UNCHANGED <<ctxDone, connecting, connLoc, connCtxDone, topen, serving, done, marked, closeCalled>>
 \* ---- Connect in flight ----
 ConnWake == /\ connLoc = "waitConnack" /\ (done \/ connCtxDone)
             /\ connLoc' = "returned" /\ connecting' = FALSE
-            /\ UNCHANGED <<loc, res, ctxDone, connCtxDone, topen, serving, done>>
+            /\ UNCHANGED <<loc, res, ctxDone, connCtxDone, topen, serving, done, marked, closeCalled>>
 \* ---- causes ----
 Cancel(c) == /\ ~ctxDone[c] /\ loc[c] # "returned" /\ ctxDone' = [ctxDone EXCEPT ![c] = TRUE]
-             /\ UNCHANGED <<loc, res, connecting, connLoc, connCtxDone, topen, serving, done>>
+             /\ UNCHANGED <<loc, res, connecting, connLoc, connCtxDone, topen, serving, done, marked, closeCalled>>
 CancelConnect == /\ connLoc = "waitConnack" /\ ~connCtxDone /\ connCtxDone' = TRUE
-                 /\ UNCHANGED <<loc, res, ctxDone, connecting, connLoc, topen, serving, done>>
-EndConn == /\ topen /\ topen' = FALSE          \* local Close, peer close, or the reader closing after a malformed packet
-           /\ UNCHANGED <<loc, res, ctxDone, connecting, connLoc, connCtxDone, serving, done>>
+                 /\ UNCHANGED <<loc, res, ctxDone, connecting, connLoc, topen, serving, done, marked, closeCalled>>
+EndConn == /\ topen /\ topen' = FALSE          \* peer close, or the reader closing after a malformed packet
+           /\ UNCHANGED <<loc, res, ctxDone, connecting, connLoc, connCtxDone, serving, done, marked, closeCalled>>
+\* the application's Close(): closes the transport whatever state the client is in (conn.go:50-53)
+LocalClose == /\ ~closeCalled /\ closeCalled' = TRUE
+              /\ topen' = IF BugCloseNoopAfterDisc /\ marked THEN topen ELSE FALSE
+              /\ UNCHANGED <<loc, res, ctxDone, connecting, connLoc, connCtxDone, serving, done, marked>>
 \* the reader goroutine: sees the closed transport, runs its epilogue, closes connClosed, exits
 ReaderExit == /\ serving /\ ~topen /\ serving' = FALSE /\ done' = TRUE
-              /\ UNCHANGED <<loc, res, ctxDone, connecting, connLoc, connCtxDone, topen>>
+              /\ UNCHANGED <<loc, res, ctxDone, connecting, connLoc, connCtxDone, topen, marked, closeCalled>>
 
-Next == (\E c \in C : Enter(c) \/ GotLock(c) \/ LockCtx(c) \/ Rec(c) \/ WakeCtx(c) \/ WakeClosed(c) \/ Cancel(c))
-        \/ ConnWake \/ CancelConnect \/ EndConn \/ ReaderExit
-Lib == (\E c \in C : Enter(c) \/ GotLock(c) \/ LockCtx(c) \/ WakeCtx(c) \/ WakeClosed(c)) \/ ConnWake \/ ReaderExit
+Next == (\E c \in C : Enter(c) \/ GotLock(c) \/ LockCtx(c) \/ Rec(c) \/ WakeCtx(c) \/ WakeClosed(c) \/ Cancel(c) \/ DiscWriteOk(c) \/ DiscWriteFail(c))
+        \/ ConnWake \/ CancelConnect \/ EndConn \/ LocalClose \/ ReaderExit
+\* A4: Transport.Write returns (DiscWriteOk or DiscWriteFail happens)
+Lib == (\E c \in C : Enter(c) \/ GotLock(c) \/ LockCtx(c) \/ WakeCtx(c) \/ WakeClosed(c) \/ DiscWriteOk(c) \/ DiscWriteFail(c)) \/ ConnWake \/ ReaderExit
 Spec == Init /\ [][Next]_vars /\ WF_vars(Lib)
 
 \* ---- C11 ----
@@ -91,6 +110,8 @@ ReaderExits == (~topen) ~> (done /\ ~serving)
 \* a cancelled context is reported as that context's error (when nothing else ended the call first)
 CtxErrorReported == \A c \in C : (res[c] = "ctx") => ctxDone[c]
 DoneOnlyIfEnded == done => ~topen
+\* a local Close ends the connection -- also after a Disconnect whose DISCONNECT could not be written
+CloseEnds == closeCalled => ~topen
 
 \* ---- the cases executed on the real code: (kind, location, cause) and what must be observed ----
 Kinds == {"pub1", "pub2", "sub", "unsub", "ping", "connect", "disconnect", "rconnect", "rdisconnect"}
@@ -100,7 +121,8 @@ LocsOf(k) == CASE k = "pub2" -> {"atRLock", "waitAck", "waitComp"}
                [] k = "disconnect" -> {"atRLock", "handlerBusy", "fromHandler"}
                [] k = "rconnect" -> {"dialFailing", "waitConnack"}
                [] OTHER -> {"loopDialing", "loopConnected"}
-Causes == {"ctxCancel", "ctxDeadline", "localClose", "peerClose", "malformed", "deadTransport", "otherDisconnect"}
+Causes == {"ctxCancel", "ctxDeadline", "localClose", "peerClose", "malformed", "deadTransport", "otherDisconnect",
+           "closeAfterFailedDisconnect", "closeAfterStuckDisconnect"}
 Applicable(k, l, cause) ==
   /\ (k = "rdisconnect" => cause = "none")
   /\ (k = "rconnect" => cause \in {"ctxCancel", "ctxDeadline"})
@@ -113,12 +135,15 @@ Applicable(k, l, cause) ==
   /\ (l = "connectWrite" <=> cause = "deadTransport")
   \* another goroutine calls Disconnect while the call waits for its acknowledgement (a local end of the connection)
   /\ (cause = "otherDisconnect" => (l \in {"waitAck", "waitComp"} /\ k \in {"pub1", "pub2", "sub", "unsub", "ping"}))
+  \* another goroutine's Disconnect could not write DISCONNECT (the write failed, or is still blocked when Close is called:
+  \* a blocked write returns once the transport is closed) and the application then calls Close()
+  /\ (cause \in {"closeAfterFailedDisconnect", "closeAfterStuckDisconnect"} => (l \in {"waitAck", "waitComp"} /\ k \in {"pub1", "pub2", "sub", "unsub", "ping"}))
 Cases == {[k |-> k, l |-> l, cause |-> cause,
            \* what the statement demands: the call returns; with which error class; is Done() closed afterwards
            \* (Disconnect has no waiting location of its own besides the lock: with the handler busy it simply returns)
            cls |-> CASE k = "disconnect" /\ l \in {"handlerBusy", "fromHandler"} -> "any"
                      [] cause = "ctxCancel" -> "canceled" [] cause = "ctxDeadline" -> "deadline" [] cause = "none" -> "any" [] OTHER -> "error",
-           done |-> cause \in {"localClose", "peerClose", "malformed", "deadTransport", "otherDisconnect"}] :
+           done |-> cause \in {"localClose", "peerClose", "malformed", "deadTransport", "otherDisconnect", "closeAfterFailedDisconnect", "closeAfterStuckDisconnect"}] :
           k \in Kinds, l \in UNION {LocsOf(x) : x \in Kinds}, cause \in Causes \cup {"none"}}
 CaseSet0 == {x \in Cases : x.l \in LocsOf(x.k) /\ Applicable(x.k, x.l, x.cause) /\ (x.cause = "none" <=> x.k = "rdisconnect")}
 \* benign broker traffic that precedes the call on the established connection and concerns nobody: an unsolicited
